@@ -30,11 +30,16 @@ RULES = {
 _B_COMMON = (
     "Each run is one call of the real fit_to_data / fit_to_variational_target on a real flowjax model drawn from a zoo "
     "(direct bijections inside Transformed, named families, coupling / masked-autoregressive / planar flows, chains, a "
-    "two-level-vmapped scan of spline layers; dims 1-4; everything constructible in this sandbox), with a real flowjax loss "
+    "two-level-vmapped scan of spline layers; dims 1-4), with a real flowjax loss "
     "and a real optax optimiser (sgd, adam, adamw, rmsprop, clip+adam) inside an observing wrapper that records the "
     "parameters and gradients of every step and injects the scheduled faults. NON-TRIVIAL: >=2 gradient steps recorded and no "
     "crash; DISTINCT by signature (model structure, freeze plan, loop, loss, optimiser, steps recorded, multiset of fired "
     "faults, fault-row symbols, return_best, set of constraint kinds evaluated). "
+    "Every fifth bucket holds a WEIGHT-NORMALISED family: a BlockAutoregressiveNetwork (dim 1-4, depth 0-2, block size 1-3, conditional or not, "
+    "activations LeakyTanh(3/1/8), a callable, and - where nothing calls the numerical inverter - tanh) or the layer of triangular_spline_flow "
+    "(leaky tanh, vmapped splines, weight-normalised TriangularAffine, additive condition), alone, chained with the factories' permutations, or "
+    "stacked leaf-by-leaf and scanned (the tree filter_vmap would build; the factories themselves cannot run under the installed equinox because "
+    "WeightNormalization fails under vmap). Only the analytic direction of a block autoregressive network is ever evaluated. "
 )
 RULES.update({
     "C12": _B_COMMON + "C12 worlds add a seeded freeze plan (0-4 nodes wrapped by NonTrainable(subtree) or non_trainable(subtree), "
@@ -47,7 +52,8 @@ RULES.update({
     "sampled snapshots and the returned model (finite states only): scales, triangular diagonals, df > 0; masked triangle == 0; "
     "mixture weights normalised; spline knots strictly increasing with exact interval ends and derivatives >= min_derivative (also "
     "for transformers built by coupling/autoregressive conditioners at probe inputs); layers strictly increasing; default affine "
-    "transformer scale >= min_scale; planar 1 + w.u_hat > 0. State 0 of named families: accessors reproduce constructor arguments "
+    "transformer scale >= min_scale; planar 1 + w.u_hat > 0; every WeightNormalization node of the wrapped model: row norms of unwrap(node) equal "
+    "unwrap(node.scale) to 1e-4 relative and the norm parameter is > 0 (rows whose raw norm is < 1e-15 are outside float32's reach: counted). State 0 of named families: accessors reproduce constructor arguments "
     "drawn log-uniformly in 1e-6..1e6 (half of the named worlds) or 1e-2..1e2 (covariances: half with per-dimension variances of independent "
     "magnitude, judged entrywise relative to sqrt(cov_ii cov_jj)). 70 % of the worlds carry a PROCESS HISTORY: 0-3 operations before the model is built and "
     "0-3 after the run (public-API calls that fail - flow constructors with bad arguments, shape mismatches, fit_to_data(val_prop=2) -, rejected invalid "
@@ -57,7 +63,9 @@ RULES.update({
     "conditional or not, affine or spline transformer, both orientations) trained with teleport faults so masked-out raw weights take "
     "large values of both signs. Checked per layer on state 0, sampled snapshots and the returned model: strictly-upper Jacobian "
     "triangle exactly 0 (MAF); transformer parameters of output i independent of x_j, j>=i; coupling first block bit-identical and no "
-    "cross dependency between transformed coordinates.",
+    "cross dependency between transformed coordinates; block autoregressive networks: strictly-upper Jacobian triangle exactly 0, no negative "
+    "diagonal entry, and a strictly positive diagonal while every diagonal-block weight is >= 1e-6 (float32 product range; teleports for these "
+    "models stay in |raw|<=5); after an all-positive teleport every lower-triangle entry and (depth>=1) every condition derivative is > 0.",
     "C18": _B_COMMON + "C18 worlds train by maximum likelihood (sgd/adam) on data containing injected fault rows whose coordinates "
     "sit exactly on values the code branches on (spline interval ends and knots, +-max_val, tanh(max_val), +-1, +-0), their float "
     "neighbours, out-of-interval values and magnitudes 1e2 (1e4 for shallow models). Checked on every step: parameters finite => loss "
@@ -99,21 +107,22 @@ ASSUMPTIONS.update({
 })
 
 NOT_EXERCISED = {
-    "C09": ["BlockAutoregressiveNetwork / BNAF (WeightNormalization cannot be constructed under the installed equinox)",
-            "'no permitted dependency is missing when width >= dim' and the mask helper patterns (pure functions of sizes)"],
-    "C11": ["weight-normalised rows keep their norm parameter (WeightNormalization unconstructible here)",
-            "rejection of invalid constructor arguments as a function of the argument alone (edge-of-validity sweep: a single pure call); "
+    "C09": ["the flow factories block_neural_autoregressive_flow / triangular_spline_flow themselves (WeightNormalization fails under filter_vmap "
+            "with the installed equinox); their layers are built eagerly and chained / stacked+scanned instead",
+            "the numerical (bisection) inverse direction of a block autoregressive network",
+            "the mask helper patterns as functions of sizes (pure)"],
+    "C11": ["rejection of invalid constructor arguments as a function of the argument alone (edge-of-validity sweep: a single pure call); "
             "what IS exercised is that a fixed panel of invalid arguments stays rejected along process histories"],
-    "C12": ["WeightNormalization nesting (unconstructible here)", "unwrap of arbitrary pytrees beyond the zoo's shapes",
+    "C12": ["the numerical inverse direction of block autoregressive networks", "unwrap of arbitrary pytrees beyond the zoo's shapes",
             "vmapped-constructed wrapper == stack of individually constructed ones (pure)"],
-    "C18": ["gradients w.r.t. the input; log_prob at arbitrary single points outside a training run (pure)", "BNAF log-space accumulation (unconstructible)"],
+    "C18": ["gradients w.r.t. the input; log_prob at arbitrary single points outside a training run (pure)", "the block_neural_autoregressive_flow factory itself (layers are built eagerly instead)"],
 }
 
 # probes that a full-budget batch must reach (checked by `selftest reach`)
 REQUIRED_PROBES = {
     "C12": ["prelude_sibling_trained", "has_frozen", "frozen_strict_subset", "all_frozen", "freeze_NT_subtree", "freeze_fn_leaves", "trainable_moved", "teleport_fired", "frozen_grad_leaves_checked", "states_checked"],
-    "C11": ["rejection_panel_items", "history_failed_calls", "ctor_roundtrips", "states_checked", "teleport_fired", "sig_scale_min", "sig_tri_diag_min", "sig_df_min", "sig_mix_lse_absmax", "sig_spline_x_mindiff", "sig_planar_margin"],
-    "C09": ["maf_nodes", "coupling_nodes", "states_checked", "teleport_fired", "sig_cond", "all_positive_states_checked", "prelude_same_sizes"],
+    "C11": ["rejection_panel_items", "history_failed_calls", "ctor_roundtrips", "states_checked", "teleport_fired", "sig_scale_min", "sig_tri_diag_min", "sig_df_min", "sig_mix_lse_absmax", "sig_spline_x_mindiff", "sig_planar_margin", "wn_nodes_checked"],
+    "C09": ["maf_nodes", "coupling_nodes", "states_checked", "teleport_fired", "sig_cond", "all_positive_states_checked", "prelude_same_sizes", "bnaf_nodes", "bnaf_strict_diag_states"],
     "C18": ["prelude_sibling_used", "fault_rows", "fault_row_batches", "finite_loss_with_fault_row", "poison_checks", "inf_loss_batches", "clean_run"],
     "C15": ["batch_1", "batch_gt_n", "cond", "remainder_skipped", "val_single_batch", "perm_seam_checked", "group", "group_switches"],
     "C16": ["early_stop_hit", "best_not_last", "best_not_first", "tie_at_min", "nan_in_val", "inf_in_val", "max_epochs_0",
